@@ -60,6 +60,11 @@ impl Bank {
     }
 
     pub fn merge(&mut self, segment: &Segment) {
+        // A segment nothing was emitted to (e.g. one that only holds zero-page labels) doesn't take up any room
+        if segment.range().is_empty() {
+            return;
+        }
+
         self.range = if self.range.is_empty() {
             let new_range = segment.range();
             self.data = vec![self.options.fill.unwrap_or_default(); new_range.len()];
@@ -92,12 +97,17 @@ impl Bank {
         self.data[seg_rng].copy_from_slice(segment.range_data());
     }
 
-    pub fn prg_header(pc: usize) -> Bank {
+    /// The two-byte header of a PRG file, which goes to the same file as the bank it is the header of
+    pub fn prg_header(bank: &Bank) -> Bank {
+        let pc = bank.range().start;
         debug_assert!(pc < 65536);
         Bank {
             range: 0..2,
             data: vec![(pc & 255) as u8, ((pc >> 8) & 255) as u8],
-            options: BankOptions::new("prg_header"),
+            options: BankOptions {
+                filename: bank.options.filename.clone(),
+                ..BankOptions::new("prg_header")
+            },
         }
     }
 }
